@@ -941,6 +941,19 @@ func (b *brokerDomain) step(f []string) string {
 		if ni < 0 || ni >= len(b.nodes) {
 			return "bad-op"
 		}
+		// the take-over lookup walks a Go map: with two live records of this client id on the node (possible only while
+		// gossip is partly delivered) which one is displaced is not determined; such CONNECTs are not sent
+		{
+			k := 0
+			for _, md := range b.nodes[ni].state.SessionMetadatas().All() {
+				if md.MountPoint == strings.TrimPrefix(f[4], "!") && md.ClientID == f[3] {
+					k++
+				}
+			}
+			if k > 1 && !strings.HasPrefix(f[4], "!") {
+				return "connect-ambiguous"
+			}
+		}
 		srvEnd, cliEnd := net.Pipe()
 		b.seq++
 		vc := &vconn{Conn: srvEnd, b: b}
